@@ -14,7 +14,7 @@
     default_cfg_include_attrs i18n_directives_sort_first contexted_table
     lookups_subset_extract_partial choose_identity msg_lookup_extracted identity_transparent_msg
     choose_lookup_extracted choose_outer_text_not_looked_up msg_lookup_extracted_elem
-    code_calls_extracted
+    code_calls_extracted identity_transparent_msg_sub
 -/
 import Genshi.Lemmas.I18nTree
 import Genshi.Lemmas.I18nStarts
@@ -24,6 +24,7 @@ import Genshi.Lemmas.I18nMsgLookup
 import Genshi.Lemmas.I18nLookups2
 import Genshi.Lemmas.I18nChooseLookup
 import Genshi.Lemmas.I18nCode
+import Genshi.Lemmas.I18nPassEq
 import Genshi.Model.I18nExtract
 namespace Genshi.Props.C19
 open Genshi Genshi.I18n
@@ -524,6 +525,28 @@ theorem identity_transparent_msg (cfg : Cfg) (ctx : Ctx) (ta : Bool) (t : QName)
         (trList cfg Catalog.id ctx false ta 0 (.start t a :: (flattenM F ++ [.end_ t]))) =
       .ok (.start t a :: (coalesce (flattenM (trimF F)) ++ [.end_ t])) :=
   pass_then_msg_identity cfg ctx ta t a F extra hc hna hnd hpl hattr
+
+/-- **identity_transparent, pass and directive together, directive-carrying elements.**  As
+    `identity_transparent_msg`, for content `F` that may hold elements carrying directives
+    (`<b py:if="…">`: SUB events), none inside another one, none with an `i18n:domain` /
+    `i18n:ctxt` directive (`stableList`: the pass then leaves the directive lists in place).
+    The fragment look-ups the pass makes inside such elements (finding C19-fragments) are
+    answered by the identity catalogue and change nothing. -/
+theorem identity_transparent_msg_sub (cfg : Cfg) (ctx : Ctx) (ta : Bool) (t : QName) (a : TAttrs) (F : List MNode)
+    (extra : List Str) (hc : cleanM F = true) (hna : deepNoAdjM F = true) (hnd : (namesM F).Nodup)
+    (hso : subsOKM false F = true) (hst : stableList (flattenM F) = true)
+    (hattr : cleanList cfg (.start t a :: (flattenM F ++ [.end_ t])) = true) :
+    msgGenerate (namesM F ++ extra) (fun s => s)
+        (trList cfg Catalog.id ctx false ta 0 (.start t a :: (flattenM F ++ [.end_ t]))) =
+      .ok (.start t a :: (coalesce (flattenM (trimF F)) ++ [.end_ t])) :=
+  pass_then_msg_identity_sub cfg ctx ta t a F extra hc hna hnd hso hst hattr
+
+example :
+    stableList (flattenM [.text [' ','H','i',',',' '], .elem (some [.other ['i','f']]) ⟨[], ['b']⟩ [] [.expr ['n'] 0 []], .text ['!',' ']]) = true ∧
+    cleanList Cfg.default (.start ⟨[], ['p']⟩ [] ::
+      (flattenM [.text [' ','H','i',',',' '], .elem (some [.other ['i','f']]) ⟨[], ['b']⟩ [] [.expr ['n'] 0 []], .text ['!',' ']] ++
+        [.end_ ⟨[], ['p']⟩])) = true := by
+  refine ⟨by decide +kernel, by decide +kernel⟩
 
 /-- **identity_transparent, plural choice** (`ChooseDirective.__call__` with
     `ChooseBranchDirective.__call__`).  For `pre <ts i18n:singular>Fs</ts> mid
